@@ -74,13 +74,91 @@ def _run_random(cfg, prog, kind, seed, tid):
     return [concdriver.run_program(cfg, prog, st, seed, tid)]
 
 
+# ---------------------------------------------------------------- design level
+DESIGN_OK = {
+    'C05': {'quick': ['pairs'], 'thorough': ['pairs', 'triples', 'seq']},
+    'C06': {'quick': ['tx'], 'thorough': ['tx', 'tx_kill']},
+    'C07': {'quick': ['pairs_kill'], 'thorough': ['pairs_kill', 'tx_kill']},
+    'C08': {'quick': ['lock'], 'thorough': ['lock', 'pairs_kill']},
+    'C14': {'quick': ['lock'], 'thorough': ['lock']},
+}
+DESIGN_MUST_FAIL = {
+    'C05': [('dev_select', ('AbsAgree', 'ReturnsLinearizable'))],
+    'C06': [('dev_inner', ('CommittedRefsComplete',)), ('dev_leak', ('QuiescentAgreement',))],
+    'C07': [('dev_remove', ('CommittedRefsComplete',)), ('dev_inner', ('CommittedRefsComplete',))],
+    'C08': [('dev_timeout', ('QuiescentAgreement',)), ('dev_leak', ('QuiescentAgreement',))],
+    'C14': [('dev_timeout', ('QuiescentAgreement',))],
+}
+
+
+def design_level(out, prop, tier):
+    """CacheConc.tla: exhaustive exploration of the design; the wrong orderings must break their invariant."""
+    for name in DESIGN_OK[prop][tier]:
+        res = run_tlc('MCConc.tla', 'MCConc_%s.cfg' % name, workers=16, timeout=900)
+        if res.error or res.violation:
+            raise MachineryError('design model MCConc_%s: %s %s\n%s' % (name, res.error, res.violation, res.out[-1500:]))
+        first = open(__import__('os').path.join(__import__('harness').SPEC, 'MCConc_%s.cfg' % name)).readline().strip()
+        out.add_tlc('MCConc_%s.cfg' % name, res, first)
+    rep = []
+    for name, invs in DESIGN_MUST_FAIL.get(prop, []):
+        res = run_tlc('MCConc.tla', 'MCConc_%s.cfg' % name, workers=16, timeout=600)
+        if res.violation not in invs:
+            raise MachineryError('design model MCConc_%s was expected to violate %s, got %s %s' % (name, invs, res.violation, res.error))
+        rep.append('%s violates %s' % (name, res.violation))
+    out.notes['design_deviations_rejected'] = rep
+
+
+F_BY_MODEL = {12: F1, 13: F2, 14: F3, 11: F1}
+
+
+def model_op(o):
+    """operation of MCConc.tla -> abstract operation of the drivers"""
+    name, v, rt = o['op'], o['v'], 1 if o.get('retry') else 0
+    k = KA
+    if name in ('set', 'add'):
+        r = op(name, k=k, v=F_BY_MODEL.get(v, v), ttl=[], tag=0)
+    elif name == 'incr':
+        r = op('incr', k=k, d=1, df=[0])
+    elif name == 'get':
+        r = op('get', k=k, fx=0, ft=0, mk='miss')
+    elif name == 'contains':
+        r = op('contains', k=k)
+    elif name == 'pop':
+        r = op('pop', k=k, fx=0, ft=0)
+    elif name == 'delete':
+        r = op('delete', k=k, mk='false')
+    elif name in ('txbegin', 'txend', 'txraise'):
+        return op(name)
+    else:
+        raise MachineryError('model op %r' % (o,))
+    if rt:
+        r['a']['retry'] = 1
+    return r
+
+
+def tlc_schedules(name, tier, seed):
+    """(init, program, client order) triples generated by TLC from the design model"""
+    from .. import plans
+    out = []
+    for init in ('absent', 'inline', 'file'):
+        pl, res = plans.tlc_plans('CacheConcPlan.tla', 'CacheConcPlan_%s_%s.cfg' % (name, init), timeout=120, seed=seed)
+        for p in pl:
+            prog = {i + 1: [model_op(o) for o in ops] for i, ops in enumerate(p['prog'])}
+            out.append((init, prog, p['hist']))
+    return out
+
+
+def _run_scripted(cfg, prog, order, seed, tid):
+    return [concdriver.run_program(cfg, prog, sched.scripted_phases(order), seed, tid)]
+
+
 def base_cfg(rng, shared, init, stats=False, policy=None):
     return dict(policy=policy or rng.choice(['lrs', 'lrs', 'none']), cull=10, limit=2 ** 30, stats=stats,
                 shared=1 if shared else 0, init=INITS[init], timeout=0, busy_budget=2)
 
 
-def explore(out, jobs_dfs, jobs_rand, module='MonitorTrace.tla', cfgfile='MonitorTrace.cfg'):
-    res = pmap(_run_dfs, jobs_dfs, procs=14) + pmap(_run_random, jobs_rand, procs=14)
+def explore(out, jobs_dfs, jobs_rand, module='MonitorTrace.tla', cfgfile='MonitorTrace.cfg', scripted=()):
+    res = pmap(_run_dfs, jobs_dfs, procs=14) + pmap(_run_random, jobs_rand, procs=14) + pmap(_run_scripted, list(scripted), procs=14)
     traces = [t for lst in res for t in lst]
     for i, t in enumerate(traces):
         t['id'] = i + 1
@@ -151,7 +229,15 @@ def run_c05(tier, seed):
         cfg = base_cfg(rng, rng.random() < 0.4, rng.choice(['absent', 'inline', 'file', 'both']),
                        stats=rng.random() < 0.25, policy=rng.choice(['lrs', 'lru', 'lfu', 'none']))
         jobs_rand.append((cfg, prog, rng.choice(['pct', 'random']), seed * 100000 + i, 0))
-    traces, verdicts = explore(out, jobs_dfs, jobs_rand)
+    design_level(out, 'C05', tier)
+    sch = tlc_schedules('pairs', tier, seed) + (tlc_schedules('triples', tier, seed) + tlc_schedules('seq', tier, seed) if tier == 'thorough' else [])
+    rng.shuffle(sch)
+    jobs_script = []
+    for init, prog, order in sch[:(250 if tier == 'quick' else 6000)]:
+        cfg = base_cfg(rng, rng.random() < 0.3, init)
+        jobs_script.append((cfg, prog, order, seed, 0))
+    out.notes['tlc_generated_schedules_replayed'] = len(jobs_script)
+    traces, verdicts = explore(out, jobs_dfs, jobs_rand, scripted=jobs_script)
     report(out, 'C05', traces, verdicts, known_findings('C05'))
     out.notes['programs'] = len(jobs_dfs) + len(jobs_rand)
     out.notes['schedules_enumerated_dfs'] = sum(1 for t in traces if t['id'] <= 10 ** 9) - len(jobs_rand)
@@ -259,7 +345,12 @@ def run_c06(tier, seed):
         cfg = base_cfg(rng, rng.random() < 0.35, rng.choice(['absent', 'inline', 'file', 'both']))
         cfg['txvia'] = rng.choice(['cache', 'cache', 'deque', 'index'])
         jobs_rand.append((cfg, prog, rng.choice(['pct', 'random']), seed * 100000 + i, 0))
-    traces, verdicts = explore(out, jobs_dfs, jobs_rand)
+    design_level(out, 'C06', tier)
+    sch = tlc_schedules('tx', tier, seed)
+    rng.shuffle(sch)
+    jobs_script = [(base_cfg(rng, rng.random() < 0.3, init), prog, order, seed, 0) for init, prog, order in sch[:(200 if tier == 'quick' else 4000)]]
+    out.notes['tlc_generated_schedules_replayed'] = len(jobs_script)
+    traces, verdicts = explore(out, jobs_dfs, jobs_rand, scripted=jobs_script)
     report(out, 'C06', traces, verdicts, known_findings('C06'))
     out.notes['programs'] = len(jobs_dfs) + len(jobs_rand)
     out.notes['blocks_raised'] = sum(1 for t in traces for e in t['ev'] if e.get('op') == 'txraise')
@@ -359,6 +450,7 @@ def run_c08(tier, seed):
             jobs.append((cfg, {1: ops}, seed, tid))
             names.append(name)
             tid += 1000
+    design_level(out, 'C08', tier)
     res = pmap(_fault_runs, jobs, procs=14)
     traces = [t for lst in res for t in lst]
     fired = sum(1 for t in traces if t.get('fault') and t['fault'][1])
@@ -453,7 +545,18 @@ def run_c14(tier, seed):
             prog = {1: [op('lock'), op('unlock')], 2: [o, op('get', k=KA, fx=0, ft=0, mk='miss')]}
             jobs_dfs.append((cfg, prog, 2, 40 if tier == 'quick' else 200, seed, tid))
             tid += 1000
-    traces, verdicts = explore(out, jobs_dfs, [])
+    design_level(out, 'C14', tier)
+    sch = tlc_schedules('lock', tier, seed)
+    jobs_script = []
+    for init, prog, order in sch:
+        cfg = base_cfg(rng, False, init)
+        cfg['busy_budget'] = 1
+        # client 1 of the model is the lock holder: an independent raw connection here
+        prog = dict(prog)
+        prog[1] = [op('lock'), op('unlock')]
+        jobs_script.append((cfg, prog, order, seed, 0))
+    out.notes['tlc_generated_schedules_replayed'] = len(jobs_script)
+    traces, verdicts = explore(out, jobs_dfs, [], scripted=jobs_script)
     report(out, 'C14', traces, verdicts, known_findings('C14'))
     timeouts = sum(1 for t in traces for e in t['ev'] if e['ev'] == 'ret' and isinstance(e.get('ret'), dict) and e['ret']['k'] == 'Timeout')
     busy = sum(1 for t in traces for e in t['ev'] if e['ev'] == 'begin' and e['ok'] == 0)
